@@ -312,8 +312,9 @@ def _ghost_ints(*names):
     return lambda V: {('ghost', n, I) for n in names}
 
 
-for _k in ('Add', 'Done', 'Wait'):
-    EXT['mod:(*sync.WaitGroup).' + _k] = _ghost_ints('wg_add', 'wg_done', 'wg_wait')
+# each method advances exactly one ghost counter (chans.wg_event)
+for _k, _g in (('Add', 'wg_add'), ('Done', 'wg_done'), ('Wait', 'wg_wait')):
+    EXT['mod:(*sync.WaitGroup).' + _k] = _ghost_ints(_g)
 for _k in ('RLock', 'RUnlock', 'Lock', 'Unlock'):
     EXT['mod:(*sync.RWMutex).' + _k] = _ghost_ints('lock_RLock', 'lock_RUnlock', 'lock_Lock', 'lock_Unlock')
     EXT['mod:(*sync.Mutex).' + _k] = _ghost_ints('lock_RLock', 'lock_RUnlock', 'lock_Lock', 'lock_Unlock')
